@@ -144,6 +144,8 @@ type state struct {
 
 	// coverage, accumulated across runs of this process
 	siteMask  []uint64 // per run: bitmask of tasks that executed the site
+	siteRun   []uint8  // per run: visits of a hot site so far (saturating; see the rare-site rule in Yield)
+	rareSw    int64    // per run: pre-emptions made under the rare-site rule
 	siteExec  []uint32 // across runs: saturating count of executions in simulation
 	siteCo    []uint8  // across runs: 1 if ever executed by >=2 tasks in one run
 	sitePre   []uint32 // across runs: pre-emptions at this site
@@ -186,6 +188,7 @@ func rndFloat() float64 {
 //go:norace
 func InitSites(n int) {
 	st.siteMask = make([]uint64, n)
+	st.siteRun = make([]uint8, n)
 	st.siteExec = make([]uint32, n)
 	st.siteCo = make([]uint8, n)
 	st.sitePre = make([]uint32, n)
@@ -308,6 +311,22 @@ func Yield(site uint32) {
 	}
 	if len(st.cfg.Faults) != 0 {
 		deliverFaults(me, site)
+	}
+	if !st.cfg.ReplayMode && st.nopre == 0 && int(site) < len(st.cfg.SiteFlags) && st.cfg.SiteFlags[site]&FlagHot != 0 &&
+		int(site) < len(st.siteRun) && st.siteRun[site] < 2 {
+		// Rare-site rule: the first two visits of every hot site in a run are pre-emption
+		// candidates of their own (60 % each), whatever the run's pre-emption budget has
+		// already been spent on. In a long-lived caller the statements that matter - the
+		// switch to a fresh arena chunk, the rebuild of a table after N calls, the slow
+		// path of a cache - run once in ten thousand calls, long after ordinary hot-site
+		// pre-emption has used up its allowance on the statements of the fast path.
+		st.siteRun[site]++
+		if st.rareSw < 256 && rnd(100) < 60 {
+			st.rareSw++
+			st.budget--
+			switchOut(site, false)
+			return
+		}
 	}
 	if st.cfg.HotOnly && !st.cfg.ReplayMode && st.nopre == 0 && int(site) < len(st.cfg.SiteFlags) &&
 		st.cfg.SiteFlags[site]&FlagHot != 0 && st.switches < 4000 && rnd(100) < st.cfg.HotProb {
@@ -695,7 +714,7 @@ func begin(cfg *Config, n int) error {
 	st.cfg = *cfg
 	st.n = int32(n)
 	st.rng = cfg.Seed ^ 0x5851f42d4c957f2d
-	st.gyields, st.switches, st.hotsw, st.stallsk = 0, 0, 0, 0
+	st.gyields, st.switches, st.hotsw, st.stallsk, st.rareSw = 0, 0, 0, 0, 0
 	st.swIdx, st.rpIdx, st.nsegs, st.ntouch = 0, 0, 0, 0
 	st.drift, st.trunc, st.hang = false, false, false
 	st.nopre, st.spins, st.slack, st.ran = 0, 0, 0, 0
@@ -770,6 +789,7 @@ func finish(out *Stats) {
 			st.siteCo[s] = 1
 		}
 		st.siteMask[s] = 0
+		st.siteRun[s] = 0
 	}
 	st.ntouch = 0
 }
